@@ -488,8 +488,11 @@ def check(prog: Program, res: Result, tier: str) -> None:
             res.bad("IO-seq", "export_data.export_data", desc, where, f"written: {wt} | read: {rt}")
     # accepted tag list of the importer (the `not in [...]` guard) covers the written tags
     for n in ast.walk(imp.node):
-        if isinstance(n, ast.Compare) and isinstance(n.ops[0], (ast.NotIn, ast.In)) and isinstance(n.comparators[0], (ast.List, ast.Tuple, ast.Set)):
-            acc = {e.value for e in n.comparators[0].elts if isinstance(e, ast.Constant)}
+        coll = n.comparators[0] if isinstance(n, ast.Compare) and n.comparators else None
+        if isinstance(coll, ast.Name):
+            coll = imp.single_defs().get(coll.id) or getattr(imp.node, "_pv_module_consts", {}).get(coll.id)     # a named collection
+        if isinstance(n, ast.Compare) and isinstance(n.ops[0], (ast.NotIn, ast.In)) and isinstance(coll, (ast.List, ast.Tuple, ast.Set)):
+            acc = {e.value for e in coll.elts if isinstance(e, ast.Constant)}
             missing = sorted(set(eb) - acc)
             desc = "every written type tag is in the importer's accepted list"
             if missing:
